@@ -25,7 +25,8 @@ PyKeywords == {"lambda", "def", "if", "else", "for", "in", "is", "not", "and", "
 CKeywords == {"double", "int", "const", "void", "char", "float", "static", "struct", "switch", "case", "default", "goto",
               "sizeof", "long", "short", "unsigned", "break", "continue", "do", "enum", "typedef", "union", "restrict",
               "pow", "fabs", "fmod", "M_PI", "NULL", "strcmp", "name", "jax"}
-Ordinary == {"x1", "Vm", "E", "I", "S", "N", "beta", "gamma", "Symbol", "oo", "_values_0", "_values_1", "zq_linearized", "g_to", "Gto", "expo", "pit", "logA"}
+\* x0, x1, x2: the names sympy's common-subexpression pass would give its temporaries (option use_cse)
+Ordinary == {"x0", "x2", "x1", "Vm", "E", "I", "S", "N", "beta", "gamma", "Symbol", "oo", "_values_0", "_values_1", "zq_linearized", "g_to", "Gto", "expo", "pit", "logA"}
 Universe == TemplateLocals \cup PyKeywords \cup CKeywords \cup Ordinary
 Reserved == TemplateLocals \cup PyKeywords \cup CKeywords
 Roles == {"state", "param", "inter"}
@@ -39,7 +40,7 @@ ModelOf(id, r) ==
   IN [blocks |-> << [k |-> "states", comp |-> "", entries |-> <<[name |-> s, e |-> N("1.5")], [name |-> "y", e |-> N("0.5")]>>],
                     [k |-> "parameters", comp |-> "", entries |-> <<[name |-> p, e |-> N("2")]>>],
                     [k |-> "expressions", comp |-> "", entries |->
-                        <<[name |-> w, e |-> Bn("add", Bn("mul", Var(p), Var(s)), Var("y"))],
+                        <<[name |-> w, e |-> LET A == Bn("add", Bn("mul", Var(p), Var(s)), Var("y")) IN Bn("mul", A, A)],   \* a repeated sub-expression
                           [name |-> DName(s), e |-> Bn("sub", Var(w), Var(s))],
                           [name |-> "dy_dt", e |-> Bn("mul", Var(s), Var(p))]>>] >>]
 NameOrderDef == <<"E">>   \* not used for sorting here: the layout is compared by name only
@@ -72,7 +73,8 @@ Run(m_id, r, scheme) ==
       e2 == Bind(e1, "y", IF ArrayOk(e1, "states") THEN Inp.y ELSE Poison)
       e3 == Bind(e2, p, IF ArrayOk(e2, "parameters") THEN Inp.p ELSE Poison)
       V(env, n) == LET v == Get(env, n) IN IF v = TPL THEN Poison ELSE v
-      wv == Arith("add", Arith("mul", V(e3, p), V(e3, s)), V(e3, "y"))
+      av == Arith("add", Arith("mul", V(e3, p), V(e3, s)), V(e3, "y"))
+      wv == Arith("mul", av, av)
       e4 == Bind(e3, w, wv)
       ds == Arith("sub", V(e4, w), V(e4, s))
       e5 == Bind(e4, DName(s), ds)
